@@ -41,7 +41,15 @@
 #include <sys/types.h>
 #include <string.h> /* memcpy, memmove, memset, strerror... */
 #include <inttypes.h>
-#ifdef __SSE2__
+/* SIMD code use the big tables: with GOST3411_2012_USE_SMALL_TABLES only the
+ * generic code is built. */
+#if defined(__SSE2__) && !defined(GOST3411_2012_USE_SMALL_TABLES)
+#	define GOST3411_2012_SSE2	1
+#endif
+#if defined(__AVX__) && !defined(GOST3411_2012_USE_SMALL_TABLES)
+#	define GOST3411_2012_AVX	1
+#endif
+#ifdef GOST3411_2012_SSE2
 #	include <cpuid.h>
 #	include <xmmintrin.h> /* SSE */
 #	include <emmintrin.h> /* SSE2 */
@@ -50,7 +58,7 @@
 #	include <smmintrin.h> /* SSE4.1 */
 #	include <nmmintrin.h> /* SSE4.2 */
 #endif
-#ifdef __AVX__ 
+#ifdef GOST3411_2012_AVX 
 #	include <cpuid.h>
 #	include <immintrin.h> /* AVX */
 #endif
@@ -1168,7 +1176,7 @@ gost3411_2012_transform_1_generic(gost3411_2012_ctx_p ctx,
 
 
 
-#ifdef __SSE2__
+#ifdef GOST3411_2012_SSE2
 
 /* Staff for old SSE. */
 #ifndef __SSE4_1__ /* SSE4.1 required. */
@@ -1418,7 +1426,7 @@ gost3411_2012_transform_1_sse(gost3411_2012_ctx_p ctx, const uint64_t *block) {
 #endif
 
 
-#ifdef __AVX__
+#ifdef GOST3411_2012_AVX
 
 #ifndef __AVX2__ /* AVX2 emulation. */
 #define _mm256_stream_load_si256	_mm256_load_si256
@@ -1662,14 +1670,14 @@ gost3411_2012_transform_n(gost3411_2012_ctx_p ctx,
     const size_t block_size_bits, const uint8_t *blocks,
     const uint8_t *blocks_max) {
 
-#ifdef __AVX__
+#ifdef GOST3411_2012_AVX
 	if (ctx->use_avx) {
 		gost3411_2012_transform_n_avx(ctx,
 		    block_size_bits, blocks, blocks_max);
 		return;
 	}
 #endif
-#ifdef __SSE2__
+#ifdef GOST3411_2012_SSE2
 	if (ctx->use_sse) {
 		gost3411_2012_transform_n_sse(ctx,
 		    block_size_bits, blocks, blocks_max);
@@ -1682,13 +1690,13 @@ gost3411_2012_transform_n(gost3411_2012_ctx_p ctx,
 static inline void
 gost3411_2012_transform_1(gost3411_2012_ctx_p ctx, const uint64_t *block) {
 
-#ifdef __AVX__
+#ifdef GOST3411_2012_AVX
 	if (ctx->use_avx) {
 		gost3411_2012_transform_1_avx(ctx, block);
 		return;
 	}
 #endif
-#ifdef __SSE2__
+#ifdef GOST3411_2012_SSE2
 	if (ctx->use_sse) {
 		gost3411_2012_transform_1_sse(ctx, block);
 		return;
@@ -1708,7 +1716,7 @@ gost3411_2012_transform_1(gost3411_2012_ctx_p ctx, const uint64_t *block) {
  */
 static inline void
 gost3411_2012_init(const size_t bits, gost3411_2012_ctx_p ctx) {
-#if defined(__SSE2__) || defined(__AVX__)
+#if defined(GOST3411_2012_SSE2) || defined(GOST3411_2012_AVX)
 	uint32_t eax, ebx, ecx, edx;
 #endif
 
@@ -1727,7 +1735,7 @@ gost3411_2012_init(const size_t bits, gost3411_2012_ctx_p ctx) {
 		/* IV - all zeros. */
 		break;
 	}
-#ifdef __SSE2__
+#ifdef GOST3411_2012_SSE2
 	__get_cpuid_count(1, 0, &eax, &ebx, &ecx, &edx);
 #	ifdef __SSE4_1__
 		ctx->use_sse |= (ecx & (((uint32_t)1) << 19));
@@ -1739,10 +1747,10 @@ gost3411_2012_init(const size_t bits, gost3411_2012_ctx_p ctx) {
 		ctx->use_sse |= (edx & (((uint32_t)1) << 26));
 #	endif
 #endif
-#ifdef __AVX2__
+#if defined(GOST3411_2012_AVX) && defined(__AVX2__)
 	__get_cpuid_count(7, 0, &eax, &ebx, &ecx, &edx);
 	ctx->use_avx |= (ebx & (((uint32_t)1) <<  5)); /* AVX2. */
-#elif defined(__AVX__)
+#elif defined(GOST3411_2012_AVX)
 	__get_cpuid_count(1, 0, &eax, &ebx, &ecx, &edx);
 	ctx->use_avx |= (ecx & (((uint32_t)1) << 28)); /* AVX. */
 #endif
@@ -1878,7 +1886,9 @@ hmac_gost3411_2012_init(const size_t bits,
 		gost3411_2012_init(bits, &hctx->ctx); /* Reinit context for 1st pass. */
 	} else {
 		key_sz = key_len;
-		memcpy(k_ipad, key, key_len);
+		if (0 != key_len) { /* Empty key may be NULL: memcpy(..., NULL, 0) is UB. */
+			memcpy(k_ipad, key, key_len);
+		}
 	}
 	memset((((uint8_t*)k_ipad) + key_sz), 0x00, (GOST3411_2012_MSG_BLK_SIZE - key_sz));
 	memcpy(hctx->k_opad, k_ipad, sizeof(k_ipad));
@@ -2161,11 +2171,11 @@ gost3411_2012_self_test(void) {
 
 	/* Test 2 - HASH by parts. */
 	for (s = 0; s < 3; s ++) {
-#ifndef __SSE2__
+#ifndef GOST3411_2012_SSE2
 		if (1 == s) /* No SSE2+, skip test. */
 			continue;
 #endif
-#ifndef __AVX__
+#ifndef GOST3411_2012_AVX
 		if (2 == s) /* No AVX+, skip test. */
 			continue;
 #endif
@@ -2176,12 +2186,12 @@ gost3411_2012_self_test(void) {
 					/* Force generic test. */
 					ctx.use_sse = 0;
 					ctx.use_avx = 0;
-#ifdef __SSE2__
+#ifdef GOST3411_2012_SSE2
 					if (1 == s) { /* SSE2+ test. */
 						ctx.use_sse = 1;
 					}
 #endif
-#ifdef __AVX__
+#ifdef GOST3411_2012_AVX
 					if (2 == s) { /* No AVX+, skip test. */
 						ctx.use_avx = 1;
 					}
@@ -2203,12 +2213,12 @@ gost3411_2012_self_test(void) {
 					/* Force generic test. */
 					ctx.use_sse = 0;
 					ctx.use_avx = 0;
-#ifdef __SSE2__
+#ifdef GOST3411_2012_SSE2
 					if (1 == s) { /* SSE2+ test. */
 						ctx.use_sse = 1;
 					}
 #endif
-#ifdef __AVX__
+#ifdef GOST3411_2012_AVX
 					if (2 == s) { /* No AVX+, skip test. */
 						ctx.use_avx = 1;
 					}
